@@ -225,6 +225,12 @@ func c04Prop(rt *rapid.T, rec *ev.Recorder) {
 				dropped = append(dropped, b)
 			}
 		}
+		if rapid.IntRange(0, 2).Draw(rt, "abandonedQueriesBeforeReorg") == 0 {
+			// clients abandon queries (cancelled request contexts) while the node serves them, right before the reorg
+			calls := buildBattery(rt, A.facade(), poolsOf(worldOf(k, survivors), survivors, nil), 2)
+			rec.ClassN("queries_abandoned_by_the_client_before_a_reorg", abandonQueries(rt, A.facade(), calls))
+			key += "Q"
+		}
 		handled := false
 		if rapid.IntRange(0, 2).Draw(rt, "faultDuringReorg") == 0 {
 			// every row-writing statement of the reorg's own transaction fails in turn (K = 1, 2, ...): either Reorg reports
